@@ -376,17 +376,18 @@ impl<K: Hash + Eq, V, RH: BuildHasher, REH: BuildHasher, FH: BuildHasher, FEH: B
                 self.p += delta;
             }
 
-            // potentially need to make room in the cache
-            if self.recent.len() + self.frequent.len() >= self.size {
-                self.replace(false);
-            }
-
-            // remove from recent evict
+            // remove from recent evict first: making room may push a victim into this
+            // very ghost list and, when it is full, evict the hit key from it
             let mut ent = self.recent_evict.map.remove(&key_ref).unwrap();
             unsafe {
                 let ent_ptr = ent.as_mut();
                 self.recent_evict.detach(ent_ptr);
                 swap_value(&mut v, ent_ptr);
+            }
+
+            // potentially need to make room in the cache
+            if self.recent.len() + self.frequent.len() >= self.size {
+                self.replace(false);
             }
 
             // add the key to the frequently used list
@@ -409,17 +410,18 @@ impl<K: Hash + Eq, V, RH: BuildHasher, REH: BuildHasher, FH: BuildHasher, FEH: B
                 self.p -= delta;
             }
 
-            // Potentially need to make room in the cache
-            if recent_len + freq_len >= self.size {
-                self.replace(true);
-            }
-
-            // remove from frequent evict
+            // remove from frequent evict first: making room may push a victim into this
+            // very ghost list and, when it is full, evict the hit key from it
             let mut ent = self.frequent_evict.map.remove(&key_ref).unwrap();
             unsafe {
                 let ent_ptr = ent.as_mut();
                 self.frequent_evict.detach(ent_ptr);
                 swap_value(&mut v, ent_ptr);
+            }
+
+            // Potentially need to make room in the cache
+            if recent_len + freq_len >= self.size {
+                self.replace(true);
             }
 
             // add the key to the frequently used list
